@@ -3,6 +3,10 @@ package main
 import (
 	"flag"
 	"fmt"
+	"sort"
+	"strings"
+
+	"golang.org/x/tools/go/ssa"
 )
 
 func runSelfTests(id, dir string) []SelfTestResult { return nil }
@@ -23,6 +27,39 @@ func cmdDiscover(args []string) int {
 	switch args[0] {
 	case "guard":
 		discoverGuards(p)
+	case "literals":
+		// print every struct literal of a message.* type in iscp/wire with the provenance of each field
+		for _, fn := range p.Funcs {
+			allInstrs(fn, func(ins ssa.Instruction) {
+				a, ok := ins.(*ssa.Alloc)
+				if !ok {
+					return
+				}
+				n := namedOf(deref(a.Type()))
+				if n == nil || n.Obj().Pkg() == nil {
+					return
+				}
+				pk := n.Obj().Pkg().Path()
+				fp := fnPkgPath(fn)
+				if !(pk == modPath+"/message" || pk == modPath+"/iscp" || pk == modPath+"/wire" || pk == modPath+"/transport") || !(fp == modPath+"/iscp" || fp == modPath+"/wire" || strings.HasPrefix(fp, modPath+"/transport")) {
+					return
+				}
+				for _, lit := range literalsOf(fn, n) {
+					if lit.Alloc != a || len(lit.Fields) == 0 {
+						continue
+					}
+					fmt.Printf("%s %s %s{\n", p.pos(a.Pos()), fnName(fn), n.Obj().Name())
+					var names []string
+					for k := range lit.Fields {
+						names = append(names, k)
+					}
+					sort.Strings(names)
+					for _, k := range names {
+						fmt.Printf("    %s <- %v\n", k, p.Leaves(lit.Fields[k], provOpts{ParamDepth: 1}))
+					}
+				}
+			})
+		}
 	}
 	return 0
 }
